@@ -872,6 +872,7 @@ func (t *Tr) rangeStart(x *ssa.Range) {
 	d0 := c.fresh("rangedom", arrSort(ks, SBool))
 	c.assert(eq(d0, sel(c.get(t.curSt, compMapDom(mt)), t.term(x.X))))
 	t.rangeDom0[x] = d0
+	t.trusted["map range in "+funcKey(t.fn)+": a key is produced at most once and every key present from start to end is produced (no key is deleted and re-inserted while the loop runs)"] = true
 }
 
 func (t *Tr) next(x *ssa.Next) {
